@@ -1,11 +1,355 @@
-(** C17 -- memory safety of the modelled index logic. This file collects (re-states) the in-bounds theorems proved
-    for the individual models; it grows as those land. Statements only. *)
-Require Import ZArith.
-From PV Require Import Outcome Matsubara4 Matsubara4Proofs.
-Local Open Scope Z_scope.
+(** C17 -- No out-of-bounds access or undefined behaviour: the PROOF part.
 
-(** precomputed vertex storage: fill and lookup never leave the allocated matrices (C15 model) *)
+    Statements only, each closed by [exact]; the proofs live in the PV files named in the [exact] terms.  Every routine
+    of the library that computes an index and then reads or writes through it, and that has an executable model in PV,
+    is modelled with bounds-checked accesses: a read or write outside the object is the outcome [OOB] ([WOOB]/[WPastEnd]
+    for the sparse iterators), a read of a cell never written is [Uninit], exhausted loop fuel is [OutOfFuel].  The
+    theorems say that for EVERY well-formed input the routine returns [Done]/[WDone] (or a C++ exception, [Throws]) --
+    i.e. none of the failure outcomes.
+
+    Three kinds of statements:
+    - [source_*]: about the model instantiated with the switches that translator/gen_c17.py reads off the C++ on every
+      run (PVgen.Gen_C17).  No hypothesis about the switches: the proofs only typecheck while the generated values are
+      [true].  Dropping a guard from the C++ turns the generated value into [false], this file stops compiling, and
+      checks/C17.py searches for a concrete failing input with the sanitizer runs.
+    - model-level theorems ([fixed = true] / any [fb]) and the [*_refuted] / [*_oob] witnesses for the UNguarded variants:
+      they show that each guard is necessary (the bad outcome is reachable without it).
+    - re-statements of in-bounds theorems proved for other properties (C02, C03, C05, C10, C13, C15, C18, C20), collected
+      here so that the evidence of C17 lists everything the memory-safety claim rests on.
+
+    What no theorem here covers: Eigen, Boost and MPI internals, object lifetimes (use after free, double delete),
+    uninitialised reads outside the modelled tables, the complex-number arithmetic, data races.  That part is TESTING
+    (ASan + UBSan + Valgrind runs of checks/C17.py) and is labelled so in the evidence. *)
+Require Import Bool List Arith ZArith.
+From PV Require Import Outcome EDSpec Sparse SparseProofs HPart HPartProofs Poly PolySem Bounds BoundsProofs.
+Require PV.GFPart PV.GFPartProofs PV.SuscPart PV.SuscPartProofs PV.Chi PV.ChiProofs PV.Index PV.IndexProofs
+        PV.Matsubara4 PV.Matsubara4Proofs PV.Container4 PV.Container4Spec PV.Container4Proofs PV.Lattice PV.LatticeProofs
+        PV.NormalizeProofs PV.AlgebraBasics PV.AlgebraProofs PVgen.Gen_Container4 PVgen.Gen_C17.
+Import ListNotations.
+
+(** * A. Index-chasing loops over sparse inner iterators *)
+
+(** GreensFunctionPart::compute (GreensFunctionPart.cpp:51-80), the loop nest over all outer indices, AS THE SOURCE HAS IT:
+    for all well-formed compressed matrices no read past the end of an inner vector, none outside the arrays, no fuel
+    exhaustion, and the visited pairs are exactly the specified ones.  ([lenient] chooses strict/hardware reading of a
+    past-end read; the statement holds for both.) *)
+Theorem source_gf_walk_in_bounds :
+  forall (VA VB : Type) (a : cs VA) (b : cs VB), cs_wf a -> cs_wf b -> cs_outer a <= cs_outer b ->
+  forall lenient : bool, gf_part_walk_source lenient a b = WDone (matches_part a b).
+Proof. exact BoundsProofs.source_gf_walk_in_bounds. Qed.
+Print Assumptions source_gf_walk_in_bounds.
+
+(** GreensFunctionPart::compute including the reads of weights and eigenvalues at the visited indices *)
+Theorem source_gf_compute_in_bounds :
+  forall (K : Type) (NO : numops K) (lenient : bool) (T : GFPart.tols K) (inp : GFPart.part_in K), GFPartProofs.part_wf K inp ->
+  exists o, gf_part_compute_source K NO lenient T inp = WDone o.
+Proof. exact BoundsProofs.source_gf_compute_in_bounds. Qed.
+Print Assumptions source_gf_compute_in_bounds.
+
+(** SusceptibilityPart::compute (SusceptibilityPart.cpp:53-88) as the source has it *)
+Theorem source_susc_walk_in_bounds :
+  forall (VA VB : Type) (a : cs VA) (b : cs VB), cs_wf a -> cs_wf b -> cs_outer a <= cs_outer b ->
+  forall lenient : bool, susc_part_walk_source lenient a b = WDone (matches_part a b).
+Proof. exact BoundsProofs.source_susc_walk_in_bounds. Qed.
+Print Assumptions source_susc_walk_in_bounds.
+
+Theorem source_susc_compute_in_bounds :
+  forall (K : Type) (NO : numops K) (lenient : bool) (T : GFPart.tols K) (inp : GFPart.part_in K), GFPartProofs.part_wf K inp ->
+  exists o, susc_part_compute_source K NO lenient T inp = WDone o.
+Proof. exact BoundsProofs.source_susc_compute_in_bounds. Qed.
+Print Assumptions source_susc_compute_in_bounds.
+
+(** chaseIndices (TwoParticleGFPart.cpp:6-20) as the source has it, called as TwoParticleGFPart::compute calls it
+    (both iterators valid) ... *)
+Theorem source_chaseIndices_in_bounds :
+  forall (VA VB : Type) (a : cs VA) (b : cs VB), cs_wf a -> cs_wf b ->
+  forall (lenient : bool) (oa ob p q : nat), oa < cs_outer a -> ob < cs_outer b ->
+  ptr_at a oa <= p < ptr_at a (S oa) -> ptr_at b ob <= q < ptr_at b (S ob) ->
+  exists r, chaseIndices_source lenient a (ptr_at a (S oa)) b (ptr_at b (S ob)) p q = WDone r.
+Proof. exact BoundsProofs.source_chaseIndices_in_bounds. Qed.
+Print Assumptions source_chaseIndices_in_bounds.
+
+(** ... and the Index4List loop of TwoParticleGFPart::compute around it (TwoParticleGFPart.cpp:119-125) *)
+Theorem source_chase_walk2_in_bounds :
+  forall (VA VB : Type) (a : cs VA) (b : cs VB), cs_wf a -> cs_wf b ->
+  forall (lenient : bool) (oa ob : nat), oa < cs_outer a -> ob < cs_outer b ->
+  chase_walk2_source lenient a oa b ob = WDone (matches_outer2 a b oa ob).
+Proof. exact BoundsProofs.source_chase_walk2_in_bounds. Qed.
+Print Assumptions source_chase_walk2_in_bounds.
+
+(** model level: the guarded loops ([fixed = true]) are in bounds for every outer index ... *)
+Theorem gf_chase_in_bounds :
+  forall (VA VB : Type) (a : cs VA) (b : cs VB), cs_wf a -> cs_wf b ->
+  forall (lenient : bool) (o : nat), o < cs_outer a -> o < cs_outer b ->
+  walk_outer true lenient a b o = WDone (matches_outer a b o).
+Proof. exact @SparseProofs.gf_chase_in_bounds. Qed.
+Print Assumptions gf_chase_in_bounds.
+
+Theorem chaseIndices_in_bounds :
+  forall (VA VB : Type) (a : cs VA) (b : cs VB), cs_wf a -> cs_wf b ->
+  forall (lenient : bool) (oa ob p q : nat), oa < cs_outer a -> ob < cs_outer b ->
+  ptr_at a oa <= p < ptr_at a (S oa) -> ptr_at b ob <= q < ptr_at b (S ob) ->
+  exists r, chaseIndices true lenient a (ptr_at a (S oa)) b (ptr_at b (S ob)) p q = WDone r.
+Proof. exact @SparseProofs.chaseIndices_in_bounds. Qed.
+Print Assumptions chaseIndices_in_bounds.
+
+(** ... and the guard is necessary: WITHOUT the iterator test ([fixed = false]) there are well-formed matrices on which the
+    chase reads innerIndexPtr[nnz] (outside the array), or an entry of the next row/column.  checks/C17.py replays the
+    corresponding library input (off-diagonal components in a single block) under AddressSanitizer when a guard is gone. *)
+Theorem gf_chase_unguarded_oob :
+  exists (a b : cs nat) (o : nat), cs_wf a /\ cs_wf b /\ o < cs_outer a /\ o < cs_outer b /\
+    walk_outer false false a b o = WOOB SideB 1.
+Proof. exact SparseProofs.gf_chase_in_bounds_refuted. Qed.
+Print Assumptions gf_chase_unguarded_oob.
+
+Theorem gf_chase_unguarded_past_end :
+  exists (a b : cs nat) (o : nat), cs_wf a /\ cs_wf b /\ o < cs_outer a /\ o < cs_outer b /\
+    walk_outer false false a b o = WPastEnd SideB 1 /\
+    walk_outer false true a b o = WDone [] /\ walk_outer true false a b o = WDone [].
+Proof. exact SparseProofs.gf_chase_past_end_refuted. Qed.
+Print Assumptions gf_chase_unguarded_past_end.
+
+Theorem chaseIndices_unguarded_oob :
+  exists (a b : cs nat) (p q : nat), cs_wf a /\ cs_wf b /\
+    ptr_at a 0 <= p < ptr_at a 1 /\ ptr_at b 0 <= q < ptr_at b 1 /\
+    chaseIndices false false a (ptr_at a 1) b (ptr_at b 1) p q = WOOB SideB 1.
+Proof. exact SparseProofs.chaseIndices_refuted. Qed.
+Print Assumptions chaseIndices_unguarded_oob.
+
+(** the unguarded loops are a memory-safety defect only: a run that returns, returns what the guarded loops return *)
+Theorem gf_unguarded_agrees_when_it_returns :
+  forall (VA VB : Type) (a : cs VA) (b : cs VB), cs_wf a -> cs_wf b ->
+  forall (lenient lenient' : bool) (o : nat) (l : list (nat * nat)), o < cs_outer a -> o < cs_outer b ->
+  walk_outer false lenient a b o = WDone l -> walk_outer true lenient' a b o = WDone l.
+Proof. exact @SparseProofs.gf_fixed_agrees. Qed.
+Print Assumptions gf_unguarded_agrees_when_it_returns.
+
+Theorem gf_pastend_harmless :
+  forall (VA VB : Type) (a : cs VA) (b : cs VB), cs_wf a -> cs_wf b ->
+  forall o : nat, o < cs_outer a -> o < cs_outer b ->
+  walk_outer false true a b o = WDone (matches_outer a b o) \/ exists s p, walk_outer false true a b o = WOOB s p.
+Proof. exact @SparseProofs.gf_pastend_harmless. Qed.
+Print Assumptions gf_pastend_harmless.
+
+(** TwoParticleGFPart::compute (C02's model, four nested sparse walks): total for ANY value [g] read by index() on an
+    exhausted iterator *)
+Theorem tpgf_part_compute_total :
+  forall (K : Type) (NO : numops K) (g : nat) (tl : Chi.tols K) (p : Chi.part_in K),
+  exists st, Chi.part_compute K NO g tl p = Done st /\ Chi.ps_computed K st = true.
+Proof. exact ChiProofs.part_compute_total. Qed.
+Print Assumptions tpgf_part_compute_total.
+
+(** * B. TwoParticleGF::compute: the table handed to the MPI reduction (TwoParticleGF.cpp:153-189) *)
+
+(** as the source has it: for every frequency list, INCLUDING THE EMPTY ONE, and every part list, compute() returns
+    normally with one table entry per frequency (m_data[i] for i < freqs.size() exists; &m_data[0] is not formed for an
+    empty table) *)
+Theorem source_tpgf_compute_in_bounds :
+  forall (K : Type) (NO : numops K) (g : nat) (tl : Chi.tols K) (clear : bool) (ps : list (Chi.part_in K)) (freqs : list (K * K * K)),
+  exists table s', tpgf_compute_source K NO g tl clear freqs (Chi.gf_prepared K ps) = Done (table, s') /\ length table = length freqs.
+Proof. exact BoundsProofs.source_tpgf_compute_in_bounds. Qed.
+Print Assumptions source_tpgf_compute_in_bounds.
+
+(** compute() before prepare() is reported by exStatusMismatch, a second compute() returns an empty table: no storage touched *)
+Theorem tpgf_compute_status_checked :
+  forall (K : Type) (NO : numops K) (sf gr : bool) (g : nat) (tl : Chi.tols K) (clear : bool) (freqs : list (K * K * K)) (s : Chi.gf_st K),
+  (Chi.g_status K s = Chi.Constructed -> Chi.gf_compute_gen K NO sf gr g tl clear freqs s = Throws 2) /\
+  (Chi.g_status K s = Chi.Computed -> Chi.gf_compute_gen K NO sf gr g tl clear freqs s = Done ([], s)).
+Proof. exact BoundsProofs.tpgf_compute_status_checked. Qed.
+Print Assumptions tpgf_compute_status_checked.
+
+(** the guard is necessary: without it an empty frequency list reaches &m_data[0] of an empty vector *)
+Theorem tpgf_empty_freqs_unguarded_undefined :
+  exists (ps : list (Chi.part_in Z)) (clear : bool),
+    ps <> [] /\ Chi.gf_compute_gen Z ChiProofs.Zops false false 0 ChiProofs.Ztols clear [] (Chi.gf_prepared Z ps) = OOB.
+Proof. exact ChiProofs.table_empty_freqs_undefined. Qed.
+Print Assumptions tpgf_empty_freqs_unguarded_undefined.
+
+(** * C. Bounds checks on state labels (StatesClassification.cpp:64-96, Hamiltonian.cpp:125-129, DensityMatrix.cpp:43-50) *)
+
+(** as the source has it: every label >= 2^N (in particular 2^N itself) is rejected by exWrongState before any table is read *)
+Theorem source_state_label_checked :
+  forall (K : Type) (S : classification) (parts : list (hpart K)) (weights : list (list K)) (q : nat),
+  state_size S <= q ->
+  getBlockNumber_source S q = Throws ex_wrong_state /\
+  getInnerState_source S q = Throws ex_wrong_state /\
+  getEigenValue_source K S parts q = Throws ex_wrong_state /\
+  dm_getWeight_source K S weights q = Throws ex_wrong_state.
+Proof. exact BoundsProofs.source_state_label_checked. Qed.
+Print Assumptions source_state_label_checked.
+
+(** ... and for EVERY label Hamiltonian::getEigenValue and DensityMatrix::getWeight return a stored value or throw *)
+Theorem source_label_lookups_never_oob :
+  forall (K : Type) (S : classification) (parts : list (hpart K)) (weights : list (list K)) (q : nat),
+  wf_class S -> covers S -> shaped (sc_states S) (map fst parts) -> shaped (sc_states S) weights ->
+  ((exists e, getEigenValue_source K S parts q = Done e) \/ getEigenValue_source K S parts q = Throws ex_wrong_state) /\
+  ((exists w, dm_getWeight_source K S weights q = Done w) \/ dm_getWeight_source K S weights q = Throws ex_wrong_state).
+Proof. exact BoundsProofs.source_label_lookups_never_oob. Qed.
+Print Assumptions source_label_lookups_never_oob.
+
+(** model level, either form of the test: labels below 2^N are looked up inside the tables *)
+Theorem hamiltonian_getEigenValue_in_bounds :
+  forall (K : Type) (fb : bool) (S : classification) (parts : list (hpart K)) (q : nat),
+  wf_class S -> covers S -> shaped (sc_states S) (map fst parts) -> q < state_size S ->
+  exists e, getEigenValue fb K S parts q = Done e.
+Proof. exact BoundsProofs.getEigenValue_in_bounds. Qed.
+Print Assumptions hamiltonian_getEigenValue_in_bounds.
+
+Theorem densitymatrix_getWeight_in_bounds :
+  forall (K : Type) (fb : bool) (S : classification) (weights : list (list K)) (q : nat),
+  wf_class S -> covers S -> shaped (sc_states S) weights -> q < state_size S ->
+  exists w, dm_getWeight fb K S weights q = Done w.
+Proof. exact BoundsProofs.dm_getWeight_in_bounds. Qed.
+Print Assumptions densitymatrix_getWeight_in_bounds.
+
+(** the `>=` is necessary: with `> StateSize` the label 2^N reads StateBlockIndex[2^N] *)
+Theorem state_label_gt_test_oob :
+  exists (S : classification) (parts : list (hpart BinNums.Z)) (q : nat),
+    wf_class S /\ state_size S <= q /\
+    getBlockNumber false S q = OOB /\ getEigenValue false BinNums.Z S parts q = OOB.
+Proof. exact HPartProofs.label_bound_refuted. Qed.
+Print Assumptions state_label_gt_test_oob.
+
+(** Hamiltonian::getEigenValues (Hamiltonian.cpp:131-141): the copy loop fills exactly the StateSize cells *)
+Theorem hamiltonian_getEigenValues_in_bounds :
+  forall (K : Type) (S : classification) (parts : list (hpart K)),
+  length (concat (map fst parts)) = state_size S ->
+  getEigenValues K S parts = Done (concat (map fst parts)).
+Proof. exact HPartProofs.getEigenValues_is_concat. Qed.
+Print Assumptions hamiltonian_getEigenValues_in_bounds.
+
+(** * D. Operator algebra (Operator.h / Operator.cpp) *)
+
+(** operator==(Operator, Operator) as the source has it never reads past the end of an operand or of a monomial *)
+Theorem source_operator_eq_total :
+  forall (K : Type) (ksub : K -> K -> K) (kzero : K -> bool) (a b : poly K),
+  exists r, operator_eq_source K ksub kzero a b = Done r.
+Proof. exact BoundsProofs.source_operator_eq_total. Qed.
+Print Assumptions source_operator_eq_total.
+
+(** both size comparisons are necessary *)
+Theorem operator_eq_prefix_oob :
+  exists a b : poly Z, poly_eq Z Z.sub (fun c => Z.eqb c 0) false a b = OOB.
+Proof. exact AlgebraBasics.eq_prefix_oob. Qed.
+Print Assumptions operator_eq_prefix_oob.
+
+Theorem operator_eq_unsized_maps_oob :
+  exists a b : poly nat, operator_eq nat Nat.sub (fun c => Nat.eqb c 0) false true a b = OOB.
+Proof. exact BoundsProofs.operator_eq_unsized_maps_oob. Qed.
+Print Assumptions operator_eq_unsized_maps_oob.
+
+(** Operator::normalize_and_insert (bubble sort with recursive contraction) terminates inside its monomial for any input *)
+Theorem operator_normalize_total :
+  forall (K : Type) (kadd : K -> K -> K) (kopp : K -> K) (kzero : K -> bool) (m : monomial) (c : K) (tgt : poly K),
+  exists tgt', normalize K kadd kopp kzero m c tgt = Done tgt'.
+Proof. exact NormalizeProofs.normalize_total. Qed.
+Print Assumptions operator_normalize_total.
+
+(** Operator::operator* *)
+Theorem operator_product_total :
+  forall (K : Type) (kadd kmul : K -> K -> K) (kopp : K -> K) (kzero : K -> bool) (a b : poly K),
+  exists ab, pmul K kadd kmul kopp kzero a b = Done ab.
+Proof. exact AlgebraProofs.pmul_total. Qed.
+Print Assumptions operator_product_total.
+
+(** * E. IndexClassification::prepare / getInfo (IndexClassification.cpp:35-73, 111-116) *)
+
+(** as the source has it, BOTH ordering modes, any number of sites/orbitals/spins (zero and mixed spin counts included), labels
+    distinct: every write IndicesToInfo[currentIndex] is inside the resized vector, every pointer dereferenced by the second
+    loop was written (no null IndexInfo pointer), getInfo returns an entry for i < IndexSize and throws for i >= IndexSize *)
+Theorem source_index_prepare_in_bounds :
+  forall (order_spins : bool) (ss : list Index.site), NoDup (Index.labels ss) ->
+  exists t, index_prepare_source order_spins ss = Done t /\
+    (forall i, i < Index.IndexSize t -> exists x, Index.getInfo t i = Done x /\ Index.valid ss x) /\
+    (forall i, Index.IndexSize t <= i -> Index.getInfo t i = Throws Index.exWrongIndex).
+Proof. exact BoundsProofs.source_index_prepare_in_bounds. Qed.
+Print Assumptions source_index_prepare_in_bounds.
+
+(** model level: either variant of the spin-major loop, under the condition that makes the `break` variant harmless *)
+Theorem index_prepare_total :
+  forall (fixed order_spins : bool) (ss : list Index.site),
+  NoDup (Index.labels ss) -> Index.harmless fixed order_spins ss ->
+  exists t, Index.prepare fixed order_spins ss = Done t.
+Proof. exact IndexProofs.prepare_total. Qed.
+Print Assumptions index_prepare_total.
+
+(** * F. Precomputed vertex storage, MatsubaraContainer4::fill / operator() (MatsubaraContainers.h; arithmetic regenerated
+    from the C++ into PVgen.Gen_Matsubara4 on every run) *)
 Theorem storage_fill_in_bounds : forall (T : Type) (src : Z * Z * Z -> T) (N : Z),
-  0 <= N -> exists st, fill T src N = Done st.
+  (0 <= N)%Z -> exists st, Matsubara4.fill T src N = Done st.
 Proof. exact Matsubara4Proofs.fill_in_bounds. Qed.
 Print Assumptions storage_fill_in_bounds.
+
+(** a second fill of the same object (any previous contents) *)
+Theorem storage_refill_in_bounds : forall (T : Type) (src : Z * Z * Z -> T) (st0 : Matsubara4.storage T) (N : Z),
+  (0 <= N)%Z -> exists st, Matsubara4.fill_from T src st0 N = Done st.
+Proof. exact Matsubara4Proofs.fill_from_in_bounds. Qed.
+Print Assumptions storage_refill_in_bounds.
+
+(** lookup at ANY three Matsubara numbers: inside the stored matrices when in the window, the fallback otherwise *)
+Theorem storage_lookup_in_bounds : forall (T : Type) (src src' : Z * Z * Z -> T) (N : Z) st (n1 n2 n3 : Z),
+  (0 <= N)%Z -> Matsubara4.fill T src N = Done st ->
+  Matsubara4.lookup T src' st N n1 n2 n3 =
+  Done (if Matsubara4Spec.in_window N n1 n2 n3 then src (n1, n2, n3) else src' (n1, n2, n3)).
+Proof. exact Matsubara4Proofs.storage_window. Qed.
+Print Assumptions storage_lookup_in_bounds.
+
+Theorem storage_refill_lookup_in_bounds :
+  forall (T : Type) (src src' : Z * Z * Z -> T) (st0 : Matsubara4.storage T) (N : Z) st (n1 n2 n3 : Z),
+  (0 <= N)%Z -> Matsubara4.fill_from T src st0 N = Done st ->
+  Matsubara4.lookup T src' st N n1 n2 n3 =
+  Done (if Matsubara4Spec.in_window N n1 n2 n3 then src (n1, n2, n3) else src' (n1, n2, n3)).
+Proof. exact Matsubara4Proofs.refill_window. Qed.
+Print Assumptions storage_refill_lookup_in_bounds.
+
+(** * G. TwoParticleGFContainer / IndexContainer4 (permutation and frequency tables regenerated into PVgen.Gen_Container4) *)
+Theorem container4_table_reads_in_bounds :
+  (Gen_Container4.set_owner_perm_index < length Gen_Container4.permutations4)%nat /\
+  Forall (fun a => (snd a < length Gen_Container4.permutations4)%nat) Gen_Container4.set_aliases /\
+  (forall n1 n2 n3, length (Gen_Container4.freq_array n1 n2 n3) = 4%nat) /\
+  Forall (fun k => (k < 4)%nat) Gen_Container4.eval_arg_slots /\ length Gen_Container4.eval_arg_slots = 3%nat.
+Proof. exact Container4Proofs.table_reads_in_bounds. Qed.
+Print Assumptions container4_table_reads_in_bounds.
+
+(** no history of container calls makes an element wrapper refer to a component that was never created *)
+Theorem container4_no_dangling :
+  forall (fixed : bool) (van : Container4.quad -> bool) (nidx : nat) (ops : list Container4.cop) (op : Container4.cop),
+  snd (Container4.cstep fixed van nidx (fst (Container4Spec.run fixed van nidx ops)) op) <> Container4.OThrows Container4.Dangling.
+Proof. exact Container4Proofs.no_dangling. Qed.
+Print Assumptions container4_no_dangling.
+
+(** * H. Lattice (Lattice.cpp, LatticePresets.cpp) *)
+(** any operation of the lattice interface with well-formed arguments, getSite as the source has it: never OOB
+    (in particular getSite of an unknown label throws instead of dereferencing end()) *)
+Theorem source_lattice_no_oob :
+  forall (L : Type) (leqb : L -> L -> bool) (V : Type) (vo : Lattice.vops V) (o : Lattice.op L V) (st : Lattice.state L V),
+  LatticeProofs.op_wf L V o -> snd (Lattice.step L leqb V vo (lattice_cfg_source true) o st) <> OOB.
+Proof. exact BoundsProofs.source_lattice_no_oob. Qed.
+Print Assumptions source_lattice_no_oob.
+
+(** * I. HamiltonianPart::prepare and FieldOperatorPart::compute (given a sound partition, C07) *)
+Theorem hamiltonianpart_prepare_in_bounds :
+  forall (fb : bool) (K : Type) (NO : numops K) (eps : K),
+  (forall x, nadd K NO (n0 K NO) x = x) -> (forall x, nadd K NO x (n0 K NO) = x) ->
+  (forall x, is_zero K NO eps x = true <-> x = n0 K NO) ->
+  forall (S : classification) (p : poly K) (b : nat) (states : list nat),
+  wf_class S -> poly_in_range K (sc_M S) p -> nth_error (sc_states S) b = Some states ->
+  respects K NO (sc_M S) p states ->
+  exists m, hpart_prepare fb K NO eps S p b = Done m.
+Proof. exact BoundsProofs.hamiltonianpart_prepare_in_bounds. Qed.
+Print Assumptions hamiltonianpart_prepare_in_bounds.
+
+Theorem fieldoperatorpart_compute_in_bounds :
+  forall (fb : bool) (K : Type) (NO : numops K) (eps : K),
+  nre_ltb K NO (nabs K NO (n1 K NO)) eps = false ->
+  nre_ltb K NO (nabs K NO (nopp K NO (n1 K NO))) eps = false ->
+  nre_ltb K NO eps (nabs K NO (n1 K NO)) = true ->
+  nre_ltb K NO eps (nabs K NO (nopp K NO (n1 K NO))) = true ->
+  forall (S : classification) (o : fop) (from to : nat) (fromStates toStates : list nat) (Hfrom Hto : mat K),
+  wf_class S -> mono_in_range (sc_M S) (fop_mono o) ->
+  nth_error (sc_states S) from = Some fromStates -> nth_error (sc_states S) to = Some toStates ->
+  square K (length fromStates) Hfrom -> square K (length toStates) Hto ->
+  (forall Kst L sg, In Kst fromStates -> tgt_of K NO (sc_M S) o Kst = Some (L, sg) -> In L toStates) ->
+  exists Lc Rr, fop_fill fb K NO eps S o Hfrom Hto (length toStates) (length fromStates) fromStates = Done (Lc, Rr).
+Proof. exact BoundsProofs.fieldoperatorpart_compute_in_bounds. Qed.
+Print Assumptions fieldoperatorpart_compute_in_bounds.
